@@ -144,7 +144,8 @@ func (exec *Executor) execAnyNode(
 func collection(v any) []any {
 	switch v := v.(type) {
 	case map[string]any:
-		return slices.Collect(maps.Values(v)) // Just work with the values
+		// Just work with the values. Never return nil for a map.
+		return slices.AppendSeq(make([]any, 0, len(v)), maps.Values(v))
 	case []any:
 		return v
 	}
